@@ -685,8 +685,8 @@ def token_sequence_case(ctx, k):
 
 def run(ctx):
     i = 0
-    for fam, n, fn in (("forms", ctx.pick(260, 4000), forms_case), ("cancel", ctx.pick(60, 800), cancel_case), ("tokens", ctx.pick(200, 3000), token_case),
-                       ("tokseq", ctx.pick(60, 800), token_sequence_case)):
+    for fam, n, fn in (("forms", ctx.pick(260, 24000), forms_case), ("cancel", ctx.pick(60, 5000), cancel_case), ("tokens", ctx.pick(200, 18000), token_case),
+                       ("tokseq", ctx.pick(60, 5000), token_sequence_case)):
         for k in range(n):
             i += 1
             if ctx.mine(i):
